@@ -650,10 +650,25 @@ func c09Encode(format string, es []Ev) (doc []byte, ok bool) {
 }
 
 // innermost open container at the end of an event prefix (top list map edge node record rectype),
-// "+marker" when a marker still waits for its object, "+array" inside a chunked array
-func c09OpenTop(es []Ev) string {
-	st := []string{"top"}
+// "+marker" when a marker still waits for its object, "+array" inside a chunked array.
+// exposed: the artificial termination will find a marker builder on top of the stack whose object is
+// not finished - the marker still waits for its object, or its object is a node without value / an
+// unfinished edge, builders that do not end themselves and are dropped.
+func c09OpenTop(es []Ev) (class string, exposed bool) {
+	type ent struct {
+		kind   string
+		marked bool
+		count  int // completed children
+	}
+	st := []ent{{kind: "top"}}
 	marker, array, lastChunk := false, false, false
+	done := func() { // an object has been completed in the current container
+		st[len(st)-1].count++
+		for len(st) > 1 && st[len(st)-1].kind == "edge" && st[len(st)-1].count >= 3 {
+			st = st[:len(st)-1] // the edge builder finishes itself with its third component
+			st[len(st)-1].count++
+		}
+	}
 	for _, e := range es {
 		switch e.K {
 		case "bd", "v", "pad", "cm", "ed":
@@ -668,43 +683,59 @@ func c09OpenTop(es []Ev) string {
 			lastChunk = !e.B
 			if !e.B && e.N == 0 {
 				array, marker = false, false
+				done()
 			}
 			continue
 		case "ad":
 			if lastChunk { // the decoders deliver the data of a chunk in one piece
 				array, marker = false, false
+				done()
 			}
 			continue
 		}
-		// an object starts (or, for "e", ends)
 		switch e.K {
-		case "l":
-			st = append(st, "list")
-		case "m":
-			st = append(st, "map")
-		case "edge":
-			st = append(st, "edge")
-		case "node":
-			st = append(st, "node")
-		case "rec":
-			st = append(st, "record")
-		case "rt":
-			st = append(st, "rectype")
+		case "l", "m", "edge", "node", "rec", "rt":
+			kind := map[string]string{"l": "list", "m": "map", "edge": "edge", "node": "node", "rec": "record", "rt": "rectype"}[e.K]
+			st = append(st, ent{kind: kind, marked: marker})
 		case "e":
 			if len(st) > 1 {
-				st = st[:len(st)-1]
+				if st[len(st)-1].kind == "rectype" {
+					st = st[:len(st)-1]
+				} else {
+					st = st[:len(st)-1]
+					done()
+				}
 			}
+		default:
+			done()
 		}
 		marker, array = false, false
 	}
-	top := st[len(st)-1]
+	class = st[len(st)-1].kind
 	if marker {
-		top += "+marker"
+		class += "+marker"
 	}
 	if array {
-		top += "+array"
+		class += "+array"
 	}
-	return top
+	// what the artificial termination does with this stack
+	exposed = marker
+	delivered := false
+	for i := len(st) - 1; i >= 1; i-- {
+		t := st[i]
+		if delivered {
+			t.count++
+		}
+		if (t.kind == "node" && t.count == 0) || (t.kind == "edge" && t.count < 3) {
+			if t.marked {
+				exposed = true
+			}
+			delivered = false
+		} else {
+			delivered = t.kind != "rectype"
+		}
+	}
+	return class, exposed
 }
 
 // which special features the document uses (for the failure classes)
@@ -1008,10 +1039,11 @@ func (st *c09Stats) oracle(c *Ctx, d *c09Doc, tmpl string, cf *caseFile) {
 	// class of every cut point: innermost open container in the prefix's events
 	ks := make([]int, 0, n)
 	class := map[int]string{}
+	exposed := map[int]bool{}
 	for k := 1; k < n; k++ {
 		ks = append(ks, k)
 		evs, _ := c09Decode(d.Fmt, d.Doc[:k])
-		class[k] = c09OpenTop(evs)
+		class[k], exposed[k] = c09OpenTop(evs)
 	}
 	feat := c09Features(d.Evs)
 	hangKey := func(k int) string { return c09FailKey("hang", d.Fmt, tmpl, "open="+class[k]) }
@@ -1032,10 +1064,10 @@ func (st *c09Stats) oracle(c *Ctx, d *c09Doc, tmpl string, cf *caseFile) {
 			if kind == "hang" {
 				detail = "open=" + class[k]
 			} else if kind == "not-prefix" {
-				if strings.Contains(class[k], "+marker") {
-					// the cut falls between a marker and the end of the value it marks: one root cause
-					// (the marker builder's artificial end), many shapes of the damage
-					detail = "marker-pending"
+				if exposed[k] {
+					// the artificial termination meets a marker builder whose object is unfinished: one
+					// root cause (the marker builder's artificial end), many shapes of the damage
+					detail = "marker-exposed"
 				}
 				detail += "/" + feat
 				if d.Fmt == "cte" {
